@@ -30,7 +30,10 @@ type c07oCase struct {
 	Sequential bool `json:"sequential,omitempty"`
 }
 
-var c07oPids = []string{"a", "verif/alpha/first-protocol", "verif/b", "x/" + string(bytes.Repeat([]byte("y"), 150)), "é/ü", "verif/alpha/first-protocoL"}
+var c07oPids = []string{"a", "verif/alpha/first-protocol", "verif/b", "x/" + string(bytes.Repeat([]byte("y"), 150)), "é/ü", "verif/alpha/first-protocoL",
+	// ids that agree on a long prefix (32, 64 bytes: what a fixed-size key or a cache line holds) and differ only after it
+	"verif/alpha/a-protocol-family-with/v1", "verif/alpha/a-protocol-family-with/v2", "x/" + string(bytes.Repeat([]byte("y"), 150)) + "z",
+	string(bytes.Repeat([]byte("0123456789abcdef"), 4)) + "-one", string(bytes.Repeat([]byte("0123456789abcdef"), 4)) + "-two"}
 
 func genC07o(t *rapid.T) c07oCase {
 	return c07oCase{
@@ -94,6 +97,10 @@ func checkC07o(c c07oCase) (o vstat.Outcome) {
 			openErrs[i] = err
 			return
 		}
+		if got := ms.GetProtocolID(); string(got) != c07oPids[c.Pids[i]] {
+			openErrs[i] = fmt.Errorf("the mounted stream returned for protocol %q reports protocol id %q", c07oPids[c.Pids[i]], got)
+			return
+		}
 		_, werr := ms.GetStream().Write([]byte(fmt.Sprintf("payload-of-opener-%d-for-%s", i, c07oPids[c.Pids[i]])))
 		if werr != nil {
 			openErrs[i] = werr
@@ -137,7 +144,7 @@ func checkC07o(c c07oCase) (o vstat.Outcome) {
 	o.NonTrivial = !c.Sequential
 	for i, e := range openErrs {
 		if e != nil {
-			o.V = vstat.Viol("open-failed", "OpenMountedStream(%q) on a live link failed: %v", c07oPids[c.Pids[i]], e)
+			o.V = vstat.Viol("open-failed", "OpenMountedStream(%q) on a live link: %v", c07oPids[c.Pids[i]], e)
 			return
 		}
 	}
